@@ -36,6 +36,14 @@ pub fn generate(g: &mut Gen) {
         g.push(format!("rnd.generate {} {} {} 1", seed_for_state(state), hx(lo), hx(hi)), Tol::Exact, "generate/unrepresentable-width", true);
     }
     g.push(format!("rnd.generate 7 {} {} 3", hx(0.5), hx(0.5)), Tol::Exact, "generate/min=max", true);
+    // one generator asked for different intervals and shuffle lengths in sequence (same lower end / different upper
+    // end, same upper / different lower, a draw after a shuffle, a long shuffle after a short one)
+    for seed in [1u64, 7, 12345, M - 1, seed_for_state(M - 1)] {
+        g.push(format!("rnd.mixed {} 6 g {} {} g {} {} g {} {} g {} {} g {} {} g {} {}", seed, hx(0.0), hx(8.0), hx(0.0), hx(1.0), hx(-1.0), hx(1.0),
+            hx(-3.0), hx(1.0), hx(0.0), hx(1.0), hx(0.0), hx(0.5)), Tol::Exact, "mixed/intervals", true);
+        g.push(format!("rnd.mixed {} 4 s 50 g {} {} s 4 s 40", seed, hx(0.0), hx(1.0)), Tol::Exact, "mixed/shuffle-then-draw", true);
+        g.push(format!("rnd.mixed {} 5 s 4 s 40 g {} {} s 0 s 1", seed, hx(0.0), hx(40.0)), Tol::Exact, "mixed/short-then-long-shuffle", true);
+    }
     // intervals whose width overflows single precision, at every kind of state (a zero state makes 0 * inf)
     for seed in [0u64, M, 2 * M, 1, 12345, seed_for_state(M - 1), seed_for_state(M - 64)] {
         for (lo, hi) in [(-3e38f32, 3e38f32), (f32::MIN, f32::MAX), (-3e38, 1.0), (-1.0, f32::MAX), (f32::MIN, 0.0)] {
